@@ -977,6 +977,7 @@ def m_index_range(ex, a, callee, canon):
                 if not hasattr(ex, "len_vars"):
                     ex.len_vars = {}
                 ex.len_vars[init.get_id()] = ex.seq_len(s) - 1
+                ex.__dict__.setdefault("_keep_alive", []).append(init)   # ids key the table: the term must stay alive
                 return Ptr([Bytes(init)], 0)
         raise Unsupported("range-slicing a byte string of symbolic length")
     lo, hi = range_bounds(ex, a[1], len(items))
@@ -1410,3 +1411,28 @@ def m_int_minmax(ex, a, callee, canon):
     if canon.endswith("min"):
         return Int(z3.If(lt, x.t, y.t), x.ty)
     return Int(z3.If(lt, y.t, x.t), x.ty)
+
+
+
+@model(r"^core::slice::<impl \[u8\]>::split_last$")
+def m_split_last(ex, a, callee, canon):
+    """(&last, &rest): structural when the byte string ends in a single byte"""
+    s = ex.bytes_of(a[0])
+    items = ex.seq_items(s)
+    if items is not None:
+        if not items:
+            return NONE()
+        return some(Struct("tuple", [Ptr([Int(items[-1], "u8")], 0), Ptr([Bytes(seq_of(items[:-1]))], 0)]))
+    t = z3.simplify(s)
+    parts = []
+
+    def walk(x):
+        if z3.is_app(x) and x.decl().kind() == z3.Z3_OP_SEQ_CONCAT:
+            for i in range(x.num_args()):
+                walk(x.arg(i))
+        else:
+            parts.append(x)
+    walk(t)
+    if parts and z3.is_app(parts[-1]) and parts[-1].decl().kind() == z3.Z3_OP_SEQ_UNIT:
+        return some(Struct("tuple", [Ptr([Int(parts[-1].arg(0), "u8")], 0), Ptr([Bytes(seq_concat(*parts[:-1]))], 0)]))
+    raise Unsupported("split_last on an opaque byte string")
